@@ -259,8 +259,10 @@ def run_job(args):
         # encoding validation: symbolic outputs under the path's model vs the real code on the same numbers
         if ctx.outputs and res['validated'] + len(res['mismatches']) < 400:
             m = eng.nice_model([]) or eng.path_model()
+            inputs = eng.input_values(m) if m is not None else None
+            if inputs is not None and any(isinstance(v, fractions.Fraction) and fractions.Fraction(float(v)) != v for v in inputs.values()):
+                m = None      # no exactly representable model of this path: a float run would not follow the same path
             if m is not None:
-                inputs = eng.input_values(m)
                 try:
                     cres = check.concrete(job, to_float_inputs(inputs))
                 except Exception as e:
@@ -407,6 +409,12 @@ def finish(check, tier, seed, jobs, results, known, wall, budget):
         for r in sorted(results, key=lambda r: -r['wall_s'])[:int(os.environ['VERIF_JOBSTATS'])]:
             print('  job %.1fs paths=%d unknown=%d exhaustive=%s %s' % (r['wall_s'], r['stats']['paths'], r['stats']['unknown'], r['exhaustive'], json.dumps(r['job'], default=str)[:150]))
     os.makedirs(os.path.join(EVDIR, 'replays'), exist_ok=True)
+    import glob
+    for old in glob.glob(os.path.join(EVDIR, 'replays', '%s-*.json' % check.id)):    # replay files of earlier runs are stale
+        try:
+            os.remove(old)
+        except OSError:
+            pass
     lines = []
     # known findings: one line per listed class actually seen
     seen_known = {}
